@@ -9,6 +9,7 @@ import signal
 import dns.exception
 import dns.name
 import dns.tokenizer
+import dns.wire
 
 from harness.core import Ctx, enc_labels, hx
 
@@ -177,6 +178,10 @@ def eval_case(ctx: Ctx, c: dict):
         tr, tv = outcome(lambda: dns.tokenizer.Tokenizer(text + " tail").get_name(o, rel, RT), lambda x: enc_labels(x.labels))
         if tr.startswith("FOREIGN"):
             ctx.fail("C01/tokenizer.get_name/foreign-exception:" + tr.split(" ")[1], f"Tokenizer({text!r}).get_name -> {tr}", rep)
+        # only an identifier is a name: the same text as a quoted string is refused
+        qr, _ = outcome(lambda: dns.tokenizer.Tokenizer('"' + text.replace('"', "") + '" tail').get_name(o), lambda x: enc_labels(x.labels))
+        if not qr.startswith("err "):
+            ctx.fail("C01/tokenizer.get_name/quoted-string-accepted", f"Tokenizer of a quoted string .get_name() -> {qr}", rep)
         elif exp is not None:
             full = labels if (origin is None or n.is_absolute()) else labels + origin
             base = rt if rt is not None else origin
@@ -382,6 +387,22 @@ def eval_case(ctx: Ctx, c: dict):
         ref = ref_decode(buf, off) if off <= len(buf) else None
         if r.startswith("FOREIGN"):
             ctx.fail("C01/from_wire/foreign-exception:" + r.split(" ")[1], f"from_wire({buf.hex()}, {off}) -> {r}", rep)
+        # the Parser route (what every record parser uses): same name, same octets consumed, and with an origin the
+        # relativized name
+        if off <= len(buf):
+            def _via_parser(origin_=None):
+                p_ = dns.wire.Parser(buf, off)
+                n_ = p_.get_name(origin_)
+                return n_, p_.current - off
+            rp, vp = outcome(_via_parser, lambda x: f"{enc_labels(x[0].labels)} {x[1]}")
+            if rp != r:
+                ctx.fail("C01/wire.Parser.get_name/differs-from-from_wire", f"Parser({buf.hex()}, {off}).get_name() -> {rp} but from_wire -> {r}", rep)
+            if v is not None and len(v[0].labels) > 1:
+                k_ = 1 + (len(buf) + off) % (len(v[0].labels) - 1) if len(v[0].labels) > 2 else 1
+                org = dns.name.Name(v[0].labels[k_:])
+                ro, vo = outcome(lambda: _via_parser(org), lambda x: f"{enc_labels(x[0].labels)} {x[1]}")
+                if ro != f"ok {enc_labels(v[0].labels[:k_])} {v[1]}":
+                    ctx.fail("C01/wire.Parser.get_name/origin", f"Parser({buf.hex()}, {off}).get_name(origin={org}) -> {ro}", rep)
         elif v is not None:
             name, used = v
             if not wf(list(name.labels)) or not name.is_absolute():
